@@ -348,8 +348,8 @@ class PopulationBalanceModel:
         '''
         Changes the size classes and resets the PSD
 
-        This is done by linear interpolation of the previous bins and PSD
-        And interpolating to the new bins and PSD
+        This is done by distributing the particles of each previous bin uniformly over its width
+        And collecting them in the new bins they overlap with
         Due to differences in bin size (thus resolution of the PSD), the number density
             could be a little different. To correct for this, we get the 3rd moment of the
             previous PSD and the new PSD, and correct the new PSD to have the same 3rd moment
@@ -374,9 +374,13 @@ class PopulationBalanceModel:
         else:
             oldV = self.ThirdMoment()
             distDen = self.PSD / (self.PSDbounds[1:] - self.PSDbounds[:-1])
-            rOld = 0.5 * (self.PSDbounds[1:] + self.PSDbounds[:-1])
+            oldBounds = self.PSDbounds
             self.reset(False)
-            self.PSD = np.interp(self.PSDsize, rOld, distDen) * (self.PSDbounds[1:] - self.PSDbounds[:-1])
+            #Each new class collects the old density over the width it shares with each old class
+            #   This conserves the particles in the range covered by the new classes, so a narrow
+            #   distribution is not lost when the new classes are much coarser than the old ones
+            overlap = np.minimum.outer(self.PSDbounds[1:], oldBounds[1:]) - np.maximum.outer(self.PSDbounds[:-1], oldBounds[:-1])
+            self.PSD = np.matmul(np.clip(overlap, 0, None), distDen)
             newV = self.ThirdMoment()
             if newV != 0:
                 self.PSD *= oldV / newV
